@@ -481,6 +481,7 @@ func (w *worker) runC14(p *harness.Pkg, t *tape.Tape, logOn bool) *verdict {
 	plan.NilSpec = t.Flip(1, 8, "nil-spec")
 	plan.CustomNotFound = t.Flip(1, 4, "custom-not-found")
 	n := 1 + t.Choose(4, "requests")
+	nAfter := 0
 	for i := 0; i < n; i++ {
 		var rp harness.ReqPlan
 		switch t.Choose(6, "kind") {
@@ -513,11 +514,21 @@ func (w *worker) runC14(p *harness.Pkg, t *tape.Tape, logOn bool) *verdict {
 		}
 		rp.AuthReject = t.Flip(1, 5, "auth-reject")
 		rp.RespEmptyArrays = true
+		// a handler result whose JSON body cannot be encoded (NaN / infinite number): the writer's error path
+		rp.RespBadFloats = rp.Kind == 0 && t.Flip(1, 4, "unencodable-response")
+		// a history: this request is sent only when the previous one (and whatever its faults left behind) is over
+		if i > 0 && t.Flip(1, 3, "after-previous") {
+			rp.After = plan.Reqs[i-1].Tag
+			nAfter++
+		}
 		plan.Reqs = append(plan.Reqs, rp)
 	}
 	res := harness.Exec(p, plan, t, logOn)
 	v := baseVerdict(p, plan, res)
 	countFaults(v, plan)
+	if nAfter > 0 {
+		v.counters["requests_sent_after_the_previous_one_was_over"] += nAfter
+	}
 	const exp = "no panic escapes the generated API or Parse(); at most one header write; every server task terminates"
 	v.nontrivial = true
 	var dk []string
